@@ -668,6 +668,117 @@ func routeTerm(p string, ro routeObs) (string, string) {
 	return term, human
 }
 
+// ---------- routable clause on a router that has served other requests (round 7) ----------
+
+// histObs is one request of a history and what p's handler saw for it
+type histObs struct {
+	toggled bool // the instantiation with its trailing slash toggled (served through the ignore option, if at all)
+	vals    []string
+	req     string
+	calls   int
+	pattern string
+	params  [][2]string
+}
+
+func instantiate(p string, vals []string) string {
+	var sb strings.Builder
+	vi := 0
+	for _, t := range tokenize(p) {
+		if t.kind == 's' {
+			sb.WriteString(t.text)
+		} else {
+			if vi < len(vals) {
+				sb.WriteString(vals[vi])
+			}
+			vi++
+		}
+	}
+	return sb.String()
+}
+
+func toggleSlash(s string) string {
+	if strings.HasSuffix(s, "/") {
+		return s[:len(s)-1]
+	}
+	return s + "/"
+}
+
+// serveHistory registers p as the only route of a router built with WithIgnoreTrailingSlash(true)
+// and serves, back to back through ServeHTTP only (nothing else touches the router or its context
+// pool in between): toggled(v1), direct(v2), toggled(v1), direct(v2) - so a direct match follows an
+// ignored-trailing-slash match and the other way round, on the same pooled context. Every handler
+// invocation must report the values of ITS request; the expected values are v1 / v2, what was
+// substituted here. ok=false: no request line can be built (no path, or the toggled path is empty).
+func serveHistory(p string, v1, v2 []string) (hs []histObs, ok bool) {
+	d, t := instantiate(p, v2), toggleSlash(instantiate(p, v1))
+	for _, q := range []string{d, t} {
+		cut := strings.IndexByte(q, '/')
+		if cut < 0 {
+			return nil, false
+		}
+	}
+	r, err := fox.New(fox.WithIgnoreTrailingSlash(true))
+	if err != nil {
+		return nil, false
+	}
+	var cur *histObs
+	if _, err = r.Handle(http.MethodGet, p, func(c fox.Context) {
+		cur.calls++
+		cur.pattern = c.Pattern()
+		cur.params = nil
+		for pr := range c.Params() {
+			cur.params = append(cur.params, [2]string{pr.Key, pr.Value})
+		}
+	}); err != nil {
+		return nil, false
+	}
+	hs = []histObs{{toggled: true, vals: v1, req: t}, {vals: v2, req: d}, {toggled: true, vals: v1, req: t}, {vals: v2, req: d}}
+	for i := range hs {
+		cur = &hs[i]
+		cut := strings.IndexByte(cur.req, '/')
+		host, path := cur.req[:cut], cur.req[cut:]
+		req := &http.Request{Method: http.MethodGet, Host: host, URL: &url.URL{Path: path}, Header: http.Header{}, Proto: "HTTP/1.1", ProtoMajor: 1, ProtoMinor: 1}
+		func() {
+			defer func() {
+				if rec := recover(); rec != nil {
+					cur.calls = -1
+				}
+			}()
+			r.ServeHTTP(httptest.NewRecorder(), req)
+		}()
+	}
+	return hs, true
+}
+
+func histTerm(p string, hs []histObs, i int) (string, string) {
+	h := hs[i]
+	ps := make([]string, len(h.params))
+	for j, kv := range h.params {
+		ps[j] = hx.Pair(hx.Bytes(kv[0]), hx.Bytes(kv[1]))
+	}
+	served := h.calls == 1 && h.pattern == p
+	ctor := "CRoute"
+	if h.toggled {
+		ctor = "CRouteTs"
+	}
+	term := fmt.Sprintf("%s %s %s %s %s %s", ctor, hx.Bytes(p), hx.ListOf(h.vals, hx.Bytes), hx.Bytes(h.req), hx.Bool(served), hx.List(ps))
+	var before []string
+	for _, b := range hs[:i] {
+		before = append(before, "GET "+hx.Quote(b.req))
+	}
+	prev := "first request"
+	if len(before) > 0 {
+		prev = "after " + strings.Join(before, ", ")
+	}
+	kind := "direct instantiation"
+	if h.toggled {
+		kind = "instantiation with the trailing slash toggled"
+	}
+	human := fmt.Sprintf("router WithIgnoreTrailingSlash(true), only route %s, back-to-back ServeHTTP history; %s: GET %s (%s with values %q) -> handler calls=%d served=%v params=%q",
+		hx.Quote(p), prev, hx.Quote(h.req), kind, h.vals, h.calls, served, h.params)
+	return term, human
+}
+
 // ---------- parseWildcard ----------
 
 func wildTerm(key string) (string, string) {
@@ -1220,6 +1331,41 @@ func main() {
 				nontriv++
 				if rnd.Pct(1) {
 					sample(h)
+				}
+			}
+		}
+		// round 7: the routable clause on a router that has just served another request. Same only
+		// route, router built with WithIgnoreTrailingSlash(true): toggled(v1), direct(v2), toggled(v1),
+		// direct(v2) back to back through ServeHTTP; each handler invocation must report its own values.
+		{
+			v1 := pickVals(rnd, p, 0)
+			v2 := pickVals(rnd, p, 0)
+			for try := 0; try < 4 && len(v1) > 0 && strings.Join(v1, "\x00") == strings.Join(v2, "\x00"); try++ {
+				v2 = pickVals(rnd, p, 0)
+			}
+			if hs, ok := serveHistory(p, v1, v2); !ok {
+				st.Count("kind:route-history-skipped(no request line)")
+			} else {
+				seenTerm := map[string]bool{}
+				for i := range hs {
+					evals++
+					t, h := histTerm(p, hs, i)
+					if hs[i].toggled {
+						st.Count(fmt.Sprintf("kind:route-history-toggled-served=%v", hs[i].calls == 1))
+					} else {
+						st.Count("kind:route-history-direct")
+					}
+					if seenTerm[t] {
+						continue // same request, same observation as earlier in the history: same verdict
+					}
+					seenTerm[t] = true
+					col.add(t, h, 1)
+					if len(v1) > 0 {
+						nontriv++
+						if rnd.Pct(1) {
+							sample(h)
+						}
+					}
 				}
 			}
 		}
